@@ -88,6 +88,27 @@ class FS:
         self.created = set()
         self.opened = []            # (name, mode, existed_before)
         self.content = {}
+        self.clobbered = set()      # pre-existing names replaced / removed by rename(), replace() or unlink()
+
+    def move(self, src, dst):
+        """POSIX rename()/replace(): silently replaces an existing destination"""
+        if not self.exists(src):
+            raise FileNotFoundError(2, "No such file or directory", src)
+        if self.exists(dst) and dst not in self.created:
+            self.clobbered.add(dst)
+        self.content[dst] = self.content.pop(src, [])
+        self.created.discard(src)
+        self.known[src] = False
+        self.created.add(dst)
+
+    def remove(self, name):
+        if not self.exists(name):
+            raise FileNotFoundError(2, "No such file or directory", name)
+        if name not in self.created:
+            self.clobbered.add(name)
+        self.created.discard(name)
+        self.content.pop(name, None)
+        self.known[name] = False
 
     def exists(self, name):
         if name in self.created:
@@ -175,6 +196,32 @@ class FP:
     def open(self, mode="r", buffering=-1, encoding=None, errors=None, newline=None):
         return self.fs.open(self.s, mode)
 
+    def write_text(self, data, encoding=None, errors=None, newline=None):
+        with self.fs.open(self.s, "w") as fh:
+            return fh.write(data)
+
+    def write_bytes(self, data):
+        with self.fs.open(self.s, "wb") as fh:
+            return fh.write(data)
+
+    def touch(self, mode=0o666, exist_ok=True):
+        if self.fs.exists(self.s):
+            if not exist_ok:
+                raise FileExistsError(17, "File exists", self.s)
+            return
+        self.fs.open(self.s, "x").close()
+
+    def rename(self, target):
+        self.fs.move(self.s, str(target))
+        return FP(self.fs, str(target))
+
+    replace = rename
+
+    def unlink(self, missing_ok=False):
+        if missing_ok and not self.fs.exists(self.s):
+            return
+        self.fs.remove(self.s)
+
     def __str__(self):
         return self.s
 
@@ -193,6 +240,16 @@ class FakeOS:
     def __getattr__(self, n):
         import os as _o
         return getattr(_o, n)
+
+    def rename(self, src, dst, *a, **k):
+        THE_FS[0].move(str(src), str(dst))
+
+    replace = rename
+
+    def remove(self, path, *a, **k):
+        THE_FS[0].remove(str(path))
+
+    unlink = remove
 
     def open(self, path, flags, mode=0o777, *a, **k):
         fs = THE_FS[0]
@@ -336,12 +393,15 @@ def check(asm_file, prtxt_file, out_name, nplan, clobber, write_log, flags, old_
         # an error names a colliding file
         ok = ok and any(any(n in m for m in msgs) for n in asked_existing)
         # no pre-existing file was opened for writing (hence every one is byte-for-byte unchanged)
-        ok = ok and not any(existed for (n, mode, existed) in fs.opened)
+        ok = ok and not any(existed for (n, mode, existed) in fs.opened) and not fs.clobbered
         return FIN(ok)
-    # otherwise: success, every planned output (and nothing else) opened for (re)writing exactly once, truncating
+    # otherwise: success, every planned output (and nothing else: no temporary file left behind) was (re)written
+    # in this run - opened once, truncating or exclusively, or moved into place
     ok = code is None
-    ok = ok and sorted(n for (n, m, e) in fs.opened) == sorted(will)
-    ok = ok and all(("w" in m) if clobber else ("x" in m) for (n, m, e) in fs.opened)
+    ok = ok and sorted(fs.created) == sorted(will)
+    ok = ok and len([n for (n, m, e) in fs.opened if n in will]) == len(set(n for (n, m, e) in fs.opened if n in will))
+    ok = ok and all(("w" in m) if clobber else ("x" in m) for (n, m, e) in fs.opened if n in will)
+    ok = ok and (clobber or not fs.clobbered)
     ok = ok and all(fs.content.get(n) for n in will if not n.endswith(".log"))
     return FIN(ok)
 '''
